@@ -185,6 +185,11 @@ func (v *V2) ReadIndex(path string) ([]byte, error) {
 	if err = idFile.Close(); err != nil {
 		return nil, errors.Wrapf(err, "failed to close segment index file %s", path)
 	}
+	if uint32(len(indexBuf)) < v.GetIndexHeaderSize() {
+		// The file was cut short (e.g. by a crash while it was being written): it
+		// cannot even hold the checksum
+		return nil, errors.Wrapf(ErrDataCorrupted, "index file %s is too short: %d bytes", path, len(indexBuf))
+	}
 	expectedCrc := ReadInt(indexBuf, 0)
 	actualCrc := crc.Checksum(0).Update(indexBuf[v.GetIndexHeaderSize():]).Value()
 	if expectedCrc != actualCrc {
